@@ -3,10 +3,11 @@
 spec  : OrbRep.tla (exact numbers of Q(sqrt 3); s, p, d representation matrices in the real bases of orbitals.py;
         sub-shell hybrids as sub-blocks; the domain predicate Preserves(shell, R)), MC_OrbRep.tla (work-list closure of
         a point group from generators, multiplication table, all group axioms and C21 clauses as invariants),
+        MC_OrbRepQuat.tla (rational, non-crystallographic rotations from integer quaternions, one state each),
         SymOrbits.tla / MC_SymOrbits.tla (space groups of small structures, site maps, integer shifts T),
         OrbRepRec.tla (record validation)
 bind  : spec -> code : every element of every generated group is passed to the real OrbitalRotator; s, p, d and the
-        sub-shell hybrids are compared with the specification's exact matrices (1e-12); for every shell accepted in
+        sub-shell hybrids are compared with the specification's exact matrices (1e-10); for every shell accepted in
         projections identity, orthogonality and D(g)D(h) = D(gh) over the specification's full multiplication table on
         the stabiliser of the shell's span; local bases through the table; Dwann of every specification structure:
         atommap and T exactly, D_wann(k) unitary with the block/phase structure given by the specification.
@@ -30,7 +31,7 @@ PROPS = {
                 text="The specification decides exactly: the groups O_h, D_6h (and subgroups) with their multiplication tables, the "
                      "s, p and d matrices of every element (and of products across the two groups), the sub-shell hybrids pz, p2, pxy, "
                      "t2g, eg as sub-blocks, for which rotations a hybrid's span is preserved, the site maps and lattice shifts T of "
-                     "Dwann. Floating point only: f shell, sp/sp2/sp3/sp3d2 hybrids, random O(3) rotations, unitarity of D_wann "
+                     "Dwann, and the s/p/d matrices of rational (integer-quaternion) rotations that are not crystallographic. Floating point only: f shell, sp/sp2/sp3/sp3d2 hybrids, random O(3) rotations, unitarity of D_wann "
                      "(tolerance 1e-9, observed 1e-15).",
                 note="exact in TLA+: group axioms, tables, s/p/d matrices, hybrids that are sub-blocks, domain predicate, atommap/T. "
                      "numeric (implementation vs its own composition, inputs and index triples chosen by the spec): f shell and "
@@ -41,7 +42,7 @@ PROPS = {
 }
 
 TOL = 1e-9
-TOL_EXACT = 1e-12
+TOL_EXACT = 1e-10
 EXACT_SHELLS = ("s", "p", "d", "pz", "p2", "pxy", "t2g", "eg")
 
 
@@ -253,10 +254,10 @@ QUAT_INV = ["InO3", "RepOrthogonal", "RepParity", "RepHom", "RepInverse", "Compr
 PARTNERS = [np.array([[0, -1, 0], [1, 0, 0], [0, 0, 1.0]]), np.array([[0, 0, 1], [1, 0, 0], [0, 1, 0.0]]), -np.eye(3), np.diag([1.0, -1.0, -1.0])]
 
 
-def rational_rotations(rep, shells, norms, nreplay, nf, rng, workers):
+def rational_rotations(rep, shells, norms, npart, nreplay, nf, rng, workers):
     """exact non-crystallographic rotations (integer quaternions): TLC model + replay on the real OrbitalRotator"""
     from wannierberri.symmetry.orbitals import OrbitalRotator
-    cfg = ("SPECIFICATION Spec\nCONSTANTS\n  QMAX = 2\n  NORMS = {%s}\n  Variant = \"code\"\n" % ", ".join(str(n) for n in norms) +
+    cfg = ("SPECIFICATION Spec\nCONSTANTS\n  QMAX = 2\n  NORMS = {%s}\n  NPART = %d\n  Variant = \"code\"\n" % (", ".join(str(n) for n in norms), npart) +
            "".join(f"INVARIANT {i}\n" for i in QUAT_INV) + "CHECK_DEADLOCK FALSE\n")
     st = ftable.enumerate_states("MC_OrbRepQuat.tla", cfg, "c21_quat", workers=workers)
     if ftable.spec_violation(rep, st, "c21_quat"):
@@ -288,7 +289,7 @@ def rational_rotations(rep, shells, norms, nreplay, nf, rng, workers):
             rep.case(("quat_orth", s["q"], s["sgn"], sh))
             if dv > TOL:
                 rep.violation(f"OrbitalRotator:orthogonal:{sh}", dict(quaternion=s["q"], sign=s["sgn"], rot_cart=R.tolist(), deviation=dv))
-            for P in (PARTNERS if sh != "f" else PARTNERS[:1]):
+            for P in (PARTNERS[:npart] if sh != "f" else PARTNERS[:1]):
                 for A, B in ((R, P), (P, R)):
                     dv = float(np.abs(np.array(rot(sh, rot_cart=A)) @ np.array(rot(sh, rot_cart=B)) - np.array(rot(sh, rot_cart=A @ B))).max())
                     maxdev["hom"] = max(maxdev["hom"], dv)
@@ -351,7 +352,7 @@ def check(pid, tier):
     rep.rule("TLC generates each point group from its generators and tabulates the multiplication table and the exact s/p/d matrices; "
              "a case = one (shell, element) or (shell, g, h) table entry replayed on the real OrbitalRotator, one (structure, shell, "
              "operation) of Dwann, or one recorded matrix/product validated by TLC; distinct by these tuples")
-    rep.assume("exact comparison of s, p, d and sub-shell hybrids uses 1e-12 (entries are 0, 1/2, sqrt(3)/2, ...); numeric laws use 1e-9 "
+    rep.assume("exact comparison of s, p, d and sub-shell hybrids uses 1e-10 (entries are 0, 1/2, sqrt(3)/2, ...); numeric laws use 1e-9 "
                "(observed deviations 1e-15)")
     rep.assume("hybrid shells are only required to be orthogonal for rotations that map their span onto itself (OrbRep!Preserves)")
 
@@ -389,7 +390,7 @@ def check(pid, tier):
 
     # Dwann on the specification's structures
     oh = groups[0]
-    lats, nsites, poscat = (["cubic", "tetra", "ortho"], [1, 2], "small") if thorough else (["cubic", "tetra"], [1, 2], "tiny")
+    lats, nsites, poscat = (["cubic", "tetra", "ortho"], [1, 2], "small") if thorough else (["tetra"], [1, 2], "tiny")
     sts, structs, excl = sc.symorb_structures("c21_symorb", lats, nsites, poscat, workers=workers)
     if not ftable.spec_violation(rep, sts, "c21_symorb"):
         rep.add_tlc("c21_symorb", sts)
@@ -420,6 +421,6 @@ def check(pid, tier):
         raise MachineryError(f"binding self-test failed: corrupted records accepted ({b2})")
     rep.part("binding_selftest", corrupted_records_rejected=b2)
 
-    rational_rotations(rep, shells, norms=range(1, 17) if thorough else [5], nreplay=200 if thorough else 24, nf=6 if thorough else 1, rng=rng, workers=workers)
+    rational_rotations(rep, shells, norms=range(1, 17) if thorough else [5], npart=4 if thorough else 2, nreplay=200 if thorough else 24, nf=6 if thorough else 1, rng=rng, workers=workers)
     random_rotations(rep, shells, npairs=40 if thorough else 6, nf=12 if thorough else 2, rng=rng)
     return rep.finish()
